@@ -31,3 +31,9 @@ const char *g_ec_point_curve; const void *g_ec_point_x, *g_ec_point_y;
 
 /* jwt_parse unit: record of the jwt_parse_head / jwt_parse_payload calls */
 unsigned g_ph_calls, g_pp_calls; int g_ph_ret, g_pp_ret; const char *g_ph_arg, *g_pp_arg;
+
+/* jwt_encode_str unit: what jwt_encode returned and stored */
+char *g_enc_out; int g_enc_rc;
+
+/* jwt_header_* / jwt_claim_* wrapper units: which doer ran, on which object, with which argument, with what answer */
+int g_doer_kind, g_doer_ret; const struct json_t *g_doer_which; const void *g_doer_arg;
